@@ -3,7 +3,7 @@ observation of the real typechecker on a program.
 
 Nothing in this file knows a typing rule.  It knows
   * the print format of Types.tla (section 9):  <<"HV", "pos|target|src;..|type;..|verdict|overload|rule">>
-  * the PRELUDE that declares exactly the atoms of Types.tla!AtomTab (same names, same declared types)
+  * the prelude tables that declare the atoms of Types.tla!AtomTab (same names, same declared types)
   * one statement template per position (TEMPLATES below)
   * how to read accept / reject / crash and the bound overload off `parse(src).evaluate(env)`.
 """
@@ -49,27 +49,46 @@ def parse_cases(out, family):
 
 # ---------------------------------------------------------------------------------------------------------
 # 2. rendering
-GLOBALS = ('int gi = 7;\n'
-           'const int gci = 9;\n'
-           'byte gb = 2;\n'
-           'int[] gai = [1, 2];\n'
-           'const int[] gcai = [3, 4];\n')
-FUNCS = ('int fi() { return 1; }\n'
-         'byte fb() { return \'b\'; }\n'
-         'bool ft() { return true; }\n'
-         'string fs() { return "r"; }\n'
-         'empty fe() { }\n')
-PARAMS = ('int i, byte b, bool t, string s, int[] ai, const int[] cai, byte[] ab, const byte[] cab, '
-          'bool[] at, const bool[] cat, string[] astr, const string[] castr, const int pci')
-LOCALS = ('    const int ci = 5;\n'
-          '    const byte cb = \'c\';\n'
-          '    const bool ct = true;\n'
-          '    const string cs = "k";\n'
-          '    const int cni = i;\n')
+# The full prelude (every atom of Types.tla!AtomTab).  A rendered program declares only the atoms its
+# statement mentions (parsing time is proportional to program size; the typing of a statement does not depend
+# on unused declarations).
+_GLOBALS = (('gi', 'int gi = 7;'), ('gci', 'const int gci = 9;'), ('gb', 'byte gb = 2;'),
+            ('gai', 'int[] gai = [1, 2];'), ('gcai', 'const int[] gcai = [3, 4];'))
+_FUNCS = (('fi', 'int fi() { return 1; }'), ('fb', "byte fb() { return 'b'; }"),
+          ('ft', 'bool ft() { return true; }'), ('fs', 'string fs() { return "r"; }'), ('fe', 'empty fe() { }'))
+_PARAMS = (('i', 'int i'), ('b', 'byte b'), ('t', 'bool t'), ('s', 'string s'), ('ai', 'int[] ai'),
+           ('cai', 'const int[] cai'), ('ab', 'byte[] ab'), ('cab', 'const byte[] cab'), ('at', 'bool[] at'),
+           ('cat', 'const bool[] cat'), ('astr', 'string[] astr'), ('castr', 'const string[] castr'),
+           ('pci', 'const int pci'))
+_LOCALS = (('ci', 'const int ci = 5;'), ('cb', "const byte cb = 'c';"), ('ct', 'const bool ct = true;'),
+           ('cs', 'const string cs = "k";'), ('cni', 'const int cni = i;'))
+_IDENT = re.compile(r'[A-Za-z_]\w*')
+FULL_PRELUDE = False          # True: always declare everything (slower; same verdicts)
+
+
+def _used(text):
+    names = set(_IDENT.findall(text))
+    if 'cni' in names:
+        names.add('i')
+    return names
+
+
+def _pick(table, names, sep):
+    return sep.join(decl for name, decl in table if FULL_PRELUDE or name in names)
+
+
+def _globals(stmt):
+    g = _pick(_GLOBALS, _used(stmt), '\n')
+    return g + '\n' if g else ''
 
 
 def _program(stmt, ret='empty', name='g', extra=''):
-    return '%s%s%s%s %s(%s) {\n%s    %s\n}\n' % (GLOBALS, FUNCS, extra, ret, name, PARAMS, LOCALS, stmt)
+    names = _used(stmt)
+    funcs = _pick(_FUNCS, names, '\n')
+    locs = _pick(_LOCALS, names, '\n    ')
+    return '%s%s%s%s %s(%s) {\n%s    %s\n}\n' % (
+        _globals(stmt), funcs + '\n' if funcs else '', extra, ret, name, _pick(_PARAMS, names, ', '),
+        '    ' + locs + '\n' if locs else '', stmt)
 
 
 # distinguishable return types for up to three user overloads (second observation of the binding)
@@ -119,9 +138,9 @@ def render(c):
     if pos == 'forstep':
         return _program('for (; t; %s %s= %s) { }' % (s[0], tgt, s[1])), None
     if pos == 'gdecl':
-        return '%s%s gx = %s;\n' % (GLOBALS, tgt, s[0]), None
+        return '%s%s gx = %s;\n' % (_globals(s[0]), tgt, s[0]), None
     if pos == 'garrinit':
-        return '%s%s gx[%s];\n' % (GLOBALS, tgt, s[0]), None
+        return '%s%s gx[%s];\n' % (_globals(s[0]), tgt, s[0]), None
     if pos == 'arrinit':
         return _program('%s x[%s];' % (tgt, s[0])), None
     if pos == 'assign':
@@ -241,7 +260,10 @@ def observe(src, obs=None):
         return 'crash', '%s: %s' % (type(e).__name__, e), None
     bound = None
     if obs is not None:
-        call = _find_call(checked, obs['name'])
-        if call is not None:
-            bound = {'sig': tuple(_type_txt(a.type) for a in call.args), 'ret': _type_txt(call.type)}
+        try:                       # tree layout is an implementation detail: degrade, never alarm, if it moved
+            call = _find_call(checked, obs['name'])
+            if call is not None:
+                bound = {'sig': tuple(_type_txt(a.type) for a in call.args), 'ret': _type_txt(call.type)}
+        except (AttributeError, TypeError):
+            bound = None
     return 'accept', '', bound
